@@ -23,6 +23,7 @@ func init() {
 			ruleGroupOptionOrder(c, "R8")
 			ruleReadersWriteNothing(c, "R9")
 			ruleNodeMethodSetReadOnce(c, "R10")
+			ruleAnswerFromOneSection(c, "R11")
 		},
 	})
 }
